@@ -296,26 +296,42 @@ def rule_order_preserving_evals(rep: Report, repo: Repo):
     rep.count("E2.causal_evals.closures", [q for _m, q, _f in closures])
 
 
-def _derivative_guard(f, index_name) -> bool:
-    """previous_index = list(index); previous_index[k] -= 1 with k chosen among components n != 0."""
+def _derivative_selection(f, index_name):
+    """-> (axis_name, order_text) if the closure picks a component k with index[k] != 0 and decrements exactly
+    that component of a list copy of the index; else None.  Accepted selections:
+        k, n = next((i, n) for i, n in enumerate(index) if n)        order = n
+        k = next(i for i, n in enumerate(index) if n)                 order = index[k]"""
     dec = [n for n in own_nodes(f) if isinstance(n, ast.AugAssign) and isinstance(n.op, ast.Sub)
            and isinstance(n.value, ast.Constant) and n.value.value == 1 and isinstance(n.target, ast.Subscript)]
     if len(dec) != 1:
-        return False
+        return None
     k = norm(dec[0].target.slice)
-    # k must come from `next((i, n) for i, n in enumerate(index) if n)`
+    lst = norm(dec[0].target.value)
+    copies = [n for n in own_nodes(f) if isinstance(n, ast.Assign) and norm(n.targets[0]) == lst]
+    if len(copies) != 1 or norm(copies[0].value) not in (f"list({index_name})",):
+        return None
     for n in own_nodes(f):
-        if isinstance(n, ast.Assign) and isinstance(n.targets[0], ast.Tuple) and isinstance(n.value, ast.Call) \
-                and call_name(n.value) == "next":
-            names = [norm(e) for e in n.targets[0].elts]
+        if isinstance(n, ast.Assign) and isinstance(n.value, ast.Call) and call_name(n.value) == "next" and n.value.args:
             g = n.value.args[0]
-            if isinstance(g, ast.GeneratorExp) and len(g.generators) == 1:
-                gen = g.generators[0]
-                if norm(gen.iter) == f"enumerate({index_name})" and isinstance(gen.target, ast.Tuple):
-                    i, v = (norm(e) for e in gen.target.elts)
-                    if norm(g.elt) == f"({i}, {v})" and len(gen.ifs) == 1 and norm(gen.ifs[0]) in (v, f"{v} > 0", f"{v} != 0"):
-                        return names[0] == k
-    return False
+            if not (isinstance(g, ast.GeneratorExp) and len(g.generators) == 1):
+                continue
+            gen = g.generators[0]
+            if norm(gen.iter) != f"enumerate({index_name})" or not isinstance(gen.target, ast.Tuple):
+                continue
+            i, v = (norm(e) for e in gen.target.elts)
+            if not (len(gen.ifs) == 1 and norm(gen.ifs[0]) in (v, f"{v} > 0", f"{v} != 0")):
+                continue
+            if isinstance(n.targets[0], ast.Tuple) and norm(g.elt) == f"({i}, {v})":
+                names = [norm(e) for e in n.targets[0].elts]
+                if names[0] == k:
+                    return k, names[1]
+            if isinstance(n.targets[0], ast.Name) and norm(g.elt) == i and n.targets[0].id == k:
+                return k, f"{index_name}[{k}]"
+    return None
+
+
+def _derivative_guard(f, index_name) -> bool:
+    return _derivative_selection(f, index_name) is not None
 
 
 # ---------------------------------------------------------------------------
@@ -334,13 +350,12 @@ def rule_taylor(rep: Report, repo: Repo):
     d, o = d[0], o[0]
     idx = d.args.vararg.arg
     # (axis, order) selection, decrement, differentiation and divisor refer to the same pair
-    sel = [n for n in own_nodes(d) if isinstance(n, ast.Assign) and isinstance(n.targets[0], ast.Tuple)
-           and isinstance(n.value, ast.Call) and call_name(n.value) == "next"]
-    ok = _derivative_guard(d, idx) and len(sel) == 1
+    sel = _derivative_selection(d, idx)
+    ok = sel is not None
     rep.check(ok, R, "_sympy_to_BlockSeries::derivative_eval selects a non-zero component and decrements it",
               "previous index = index with the chosen component lowered by one", loc(d))
     if ok:
-        axis, order = (norm(e) for e in sel[0].targets[0].elts)
+        axis, order = sel
         ret = [n for n in own_nodes(d) if isinstance(n, ast.Return)]
         good = False
         if len(ret) == 1 and isinstance(ret[0].value, ast.BinOp) and isinstance(ret[0].value.op, ast.Div):
@@ -348,8 +363,13 @@ def rule_taylor(rep: Report, repo: Repo):
             good = (norm(den) == order and isinstance(num, ast.Call) and isinstance(num.func, ast.Attribute)
                     and num.func.attr == "diff" and len(num.args) == 1 and norm(num.args[0]) == f"symbols[{axis}]"
                     and isinstance(num.func.value, ast.Subscript) and norm(num.func.value.value) == "operator_derivatives")
-        rep.check(good, R, "_sympy_to_BlockSeries::derivative_eval element n = d/d(symbol_k) of element n-e_k, divided by n_k",
-                  f"`{norm(ret[0]) if ret else ''}`; axis={axis}, order={order}", loc(d))
+        inst = "_sympy_to_BlockSeries::derivative_eval element n = d/d(symbol_k) of element n-e_k, divided by n_k"
+        if good:
+            rep.ok(R, inst, f"`{norm(ret[0])}`; axis={axis}, order={order}", loc(d))
+        else:
+            rep.fail(R, f"_sympy_to_BlockSeries::derivative_eval returns `{norm(ret[0].value) if ret else ''}`",
+                     f"the Taylor coefficient needs d/d(symbols[{axis}]) of the previous element divided by the order along that same axis "
+                     f"({order}), so that element n carries 1/(n_1! n_2! ...)", loc(d))
     # op_eval: substitution to 0 and monomial are paired position-wise with `symbols`
     oi = o.args.vararg.arg
     subs = [n for n in own_nodes(o) if isinstance(n, ast.Call) and isinstance(n.func, ast.Attribute) and n.func.attr == "subs"]
